@@ -46,7 +46,9 @@ def hypotest_contract(eng, call):
 
 
 def kwargs(eng):
-    return {"kwA": eng.obj("kwA"), "kwB": eng.obj("kwB")}
+    """the hypothesis-test options a caller forwards through the call: hypotest's own options by their real names (code that
+    singles one of them out - pops it, renames it - must still hand it on) and an arbitrary further one"""
+    return {k: eng.obj(k) for k in ("par_bounds", "init_pars", "fixed_params", "test_stat", "calctype", "kwA")}
 
 
 # ---------------------------------------------------------------- upper_limit / upperlimit
@@ -153,7 +155,11 @@ def t_upperlimit_alias(T):
             T.fail(f"{key}#fwd.all@path{k}", "upper_limit not called once", kind="forwarding")
             continue
         c = cs[0]
-        got = [c.arg(0, "data"), c.arg(1, "model"), c.arg(2, "scan"), c.arg(3, "level"), c.arg(4, "return_results")]
+        # an argument the alias does not hand on takes the callee's own default
+        ulf = eng.func(f"{UL}::upper_limit")
+        names = [p_.arg for p_ in ulf.node.args.args]
+        dflt = lambda n: ulf.defaults[names.index(n) - (len(names) - len(ulf.defaults))]
+        got = [c.arg(0, "data"), c.arg(1, "model"), c.arg(2, "scan", dflt("scan")), c.arg(3, "level", dflt("level")), c.arg(4, "return_results", dflt("return_results"))]
         extra = {k2: v for k2, v in c.kwargs.items() if k2 not in ("data", "model", "scan", "level", "return_results")}
         T.ob_path(eng, f"{key}#fwd.all@path{k}", r, eng.veq([got, extra], [[a["data"], a["model"], a["scan"], a["level"], a["rr"]], a["kw"]]), kind="forwarding")
         T.ob_path(eng, f"{key}#post.returns-result@path{k}", r, eng.veq(r.value, c.result), kind="forwarding")
@@ -468,6 +474,8 @@ def replay(r):
     import pyhf.infer.intervals.upper_limits as ul
     if "::linear_grid_scan#" in name or "::toms748_scan#" in name:
         return _replay_scans(name, ul, np)
+    if "::upperlimit#" in name:
+        return _replay_alias(ul)
     if "upper_limit#fwd." in name and "fwd.level" not in name:
         return _replay_upper_limit_forwarding(ul, np)
     if "upper_limit#fwd.level" not in name:
@@ -617,6 +625,38 @@ def _replay_scans_run(name, ul, np):
     return {"reproduced": bool(bad), "disagreements": bad, "how": "real function, hypotest = 6 known decreasing curves, numerical library call spied"}
 
 
+def _replay_alias(ul):
+    """the deprecated alias with the real upper_limit replaced by a recording stub: every argument must arrive"""
+    import warnings
+    import pyhf.infer.intervals as iv
+    seen = {}
+    saved = ul.upper_limit
+
+    def spy(data, model, scan=None, level=0.05, return_results=False, **kw):
+        seen.update(data=data, model=model, scan=scan, level=level, return_results=return_results, kw=kw)
+        return "RESULT"
+    ul.upper_limit = spy
+    bad = {}
+    try:
+        with warnings.catch_warnings():
+            warnings.simplefilter("ignore")
+            kw = dict(test_stat="q", par_bounds=[(0.0, 3.0)])
+            out = iv.upperlimit("D", "M", [1.0, 2.0], 0.2, True, **kw)
+            want = dict(data="D", model="M", scan=[1.0, 2.0], level=0.2, return_results=True, kw=kw)
+            if seen != want or out != "RESULT":
+                bad["positional"] = {"received": repr(seen), "passed": repr(want)}
+            seen.clear()
+            out = iv.upperlimit("D", "M", scan=None, level=0.3, return_results=False, **kw)
+            want = dict(data="D", model="M", scan=None, level=0.3, return_results=False, kw=kw)
+            if seen != want or out != "RESULT":
+                bad["keywords"] = {"received": repr(seen), "passed": repr(want)}
+    except Exception as e:
+        bad["exception"] = f"{type(e).__name__}: {e}"
+    finally:
+        ul.upper_limit = saved
+    return {"reproduced": bool(bad), "disagreements": bad}
+
+
 def _replay_upper_limit_forwarding(ul, np):
     """the real upper_limit with both scans replaced by recording stubs: every argument the caller passed must arrive"""
     seen = {}
@@ -640,7 +680,7 @@ def _replay_upper_limit_forwarding(ul, np):
     ul.toms748_scan, ul.linear_grid_scan = spy_t, spy_g
     bad = {}
     try:
-        kw = dict(test_stat="q", fixed_params=[False, True])
+        kw = dict(test_stat="q", fixed_params=[False, True], par_bounds=[(0.0, 3.0), (0.2, 0.9)], init_pars=[1.0, 0.5], calctype="asymptotics", return_tail_probs=False)
         out_t = ul.upper_limit("D", M(), level=0.2, return_results=True, **kw)
         out_g = ul.upper_limit("D", M(), scan=[1.0, 2.0], level=0.2, return_results=True, **kw)
     finally:
